@@ -18,6 +18,7 @@ DECIDED = [
     'R3: the lookup inside the chasing loop is strict (incomplete left false) and KeyError is converted into a raised error.',
     'R4: NodePath.split_path validates prefix/gaps inside the match loop and the unparsed suffix after it (both raise ValueError); get_list_path parses text with validation on.',
     'R5: errors.Error.__init__ evaluated for every error class x second node x known / unknown source position: building an error never raises (a failure is reported as the error the property names, not as an unrelated exception) and the PyYAML base constructor gets message, note and marks of the right nodes.',
+    'R5 also: how failures become the named errors (traces of errors.rethrow_point, the node-method decorators, errors.api_entry; default configuration): own error class passes, anything else is converted with node / path / second node / message and the original exception as cause; the re-creation at the API boundary keeps class, fields and cause.',
 ]
 UNDECIDED = ['the path grammar itself (regex semantics);', 'forward/backward order independence as data;', 'recursive cycles through containers rely on CPython\'s recursion limit (stated assumption).']
 ASSUMPTIONS = ['recursion (as opposed to loops) terminates through RecursionError, which evaluation reports as EvalError']
@@ -447,11 +448,13 @@ def check(repo, run, tier):
     g(r4, repo, run)
     g(unitrules.errors_constructible, repo, run, 'C09.R5')
     g(unitrules.list_path_table, repo, run, 'C09.R4')
+    g(unitrules.error_wrapping, repo, run, 'C09.R5')
     g.done()
 
 
 def mutants(repo):
     return [
+        Mutant('rethrow-loses-cause', lambda r: in_func(r, 'errors.rethrow_point', "raise error_type(error_msg=str(e), node=self, path=path, extra_node=other) from reason", "raise error_type(error_msg=str(e), node=self, path=path, extra_node=other)"), ['C09.R5']),
         Mutant('target-evaluated-under-the-reference-path', lambda r: in_func(r, 'XRefNode.ayns.on_evaluate_impl', "return ctx.evaluate_node(curr, prefix=chain[-1])", "return ctx.evaluate_node(curr)"), ['C09.R2']),
         Mutant('path-type-check-inverted', lambda r: in_func(r, 'NodePath.get_list_path', "        elif check_types:", "        elif not check_types:"), ['C09.R4']),
         Mutant('chain-condition-negated', lambda r: in_func(r, 'XRefNode.ayns.on_evaluate_impl', "while isinstance(curr, XRefNode):", "while not isinstance(curr, XRefNode):"), ['C09.R1']),
